@@ -588,7 +588,6 @@ def check(repo, rep, tier):
   rule_n_components(repo, rep)
   rule_calibration_first(repo, rep)
   from . import c05
-  c05.rule_data_unchanged(repo, rep)
   api.run_rule(repo, rep)
   rule_int_safe(repo, rep)
   from . import c06b
